@@ -1,6 +1,7 @@
 package main
 
 import (
+	"go/ast"
 	"encoding/json"
 	"flag"
 	"fmt"
@@ -124,18 +125,60 @@ func verifyFunction(w *World, specs *Specs, tt *TypeTable, fn *ssa.Function, c *
 
 // addAxioms includes the trusted axioms (//@ axiom) of the spec files; they speak about opaque spec functions only.
 func (vc *VC) addAxioms() {
+	// spec-file axioms and lemmas are translated lazily (flushAxioms): only once the vocabulary they talk about is in
+	// use in this verification unit. Translating them eagerly would drag their spec functions, type ids and
+	// definitional axioms into every query.
 	for _, ax := range vc.specs.Axioms {
 		if ax.Lemma && vc.provingLemma == ax {
 			continue // a lemma is not available to its own proof
 		}
+		vc.pendingAxioms = append(vc.pendingAxioms, ax)
+	}
+}
+
+// axiomVocabulary: the opaque / defined spec functions an axiom mentions (macros expand in place and do not count).
+func (vc *VC) axiomVocabulary(ax *Axiom) []string {
+	var out []string
+	ast.Inspect(ax.Expr, func(n ast.Node) bool {
+		if call, ok := n.(*ast.CallExpr); ok {
+			if id, ok := call.Fun.(*ast.Ident); ok {
+				if sf, ok := vc.specs.SpecFuncs[id.Name]; ok && (sf.Opaque || sf.Defined) {
+					out = append(out, "sf_"+id.Name)
+				}
+			}
+		}
+		return true
+	})
+	return out
+}
+
+func (vc *VC) flushAxioms() {
+	if len(vc.pendingAxioms) == 0 {
+		return
+	}
+	var rest []*Axiom
+	for _, ax := range vc.pendingAxioms {
+		ready := true
+		voc := vc.axiomVocabulary(ax)
+		for _, sym := range voc {
+			if !vc.d.seen[sym] {
+				ready = false
+				break
+			}
+		}
+		if !ready && len(voc) > 0 {
+			rest = append(rest, ax)
+			continue
+		}
 		e := &Env{vc: vc, pkg: ax.Pkg, vars: map[string]TV{}, heap: newHeap(), old: newHeap()}
-		vc.d.axiom(e.trBool(ax.Expr))
+		vc.d.specAxiom(e.trBool(ax.Expr))
 		if ax.Lemma {
 			vc.usedTrusted["lemma "+ax.Label+" (proved as its own obligation)"] = true
 		} else {
 			vc.usedTrusted["axiom "+ax.Label] = true
 		}
 	}
+	vc.pendingAxioms = rest
 }
 
 // buildProbes evaluates the probe expressions of the contract (and one automatic probe per scalar parameter) in the
